@@ -370,6 +370,9 @@ def run_check(prop: str, tier: str, seed: int, jobs: int, replay: str | None = N
         u.setdefault("name", f"u{i}")
         u.setdefault("tier", tier)
         u.setdefault("seed", seed)
+    only = os.environ.get("VERIF_ONLY")
+    if only:  # debugging aid: restrict to units whose name contains the substring (never used by registered commands)
+        units = [u for u in units if only in u["name"]]
     # heavy units first for better packing
     units.sort(key=lambda u: -float(u.get("cost", 1.0)))
     print(f"[{prop}] tier={tier} seed={seed} units={len(units)} jobs={jobs}", file=sys.stderr, flush=True)
